@@ -1047,7 +1047,15 @@ func runExp(c *driver.Ctx, ec ExpCase) (reproduced bool) {
 			want := min(cfg.EffectiveConsumers(), int(acceptedReqs), 1+ec.Reqs%3)
 			if want > 0 && !log.WaitCount(expkit.EvRetryLog, want, nil, 4*time.Second) {
 				c.Observe("steer_cap_expired:retry-wait", 1)
-				c.Note("retry-wait steering expired: %s script=%s k=%d want=%d accepted=%d retrylogs=%d attempts=%d inflight=%d procs=%d gate=%v elapsed=%d init=%d sizer=%s qs=%d frames=%v", cfg.Class(), ec.Script, ec.K, want, acceptedReqs, log.Count(expkit.EvRetryLog), len(be.Attempts()), be.Inflight(), runtime.GOMAXPROCS(0), gate != nil, cfg.RetryElapsedMS, cfg.RetryInitMS, cfg.Sizer, cfg.QueueSize, func() []string { var o []string; for _, g := range expkit.Dump() { if g.Helper() { o = append(o, g.TopRepo+" ["+g.State+"]") } }; return o }())
+				c.Note("retry-wait steering expired: %s script=%s k=%d want=%d accepted=%d retrylogs=%d attempts=%d inflight=%d procs=%d gate=%v elapsed=%d init=%d sizer=%s qs=%d frames=%v", cfg.Class(), ec.Script, ec.K, want, acceptedReqs, log.Count(expkit.EvRetryLog), len(be.Attempts()), be.Inflight(), runtime.GOMAXPROCS(0), gate != nil, cfg.RetryElapsedMS, cfg.RetryInitMS, cfg.Sizer, cfg.QueueSize, func() []string {
+					var o []string
+					for _, g := range expkit.Dump() {
+						if g.Helper() {
+							o = append(o, g.TopRepo+" ["+g.State+"]")
+						}
+					}
+					return o
+				}())
 			}
 		case ScGatedShutdown:
 			go func() {
@@ -1141,7 +1149,7 @@ func runExp(c *driver.Ctx, ec ExpCase) (reproduced bool) {
 	}
 	// items of finished retry chains (= what the exporter's obsreport booked as one request) that are
 	// nevertheless still stored: booked as sent / booked as failed
-	var sentAndStored, failedAndStored int64
+	var sentAndStored, failedAndStored, permanentAndStored int64
 	if cfg.Persistent {
 		for _, ch := range chains {
 			for _, id := range ch.IDs {
@@ -1151,6 +1159,9 @@ func runExp(c *driver.Ctx, ec ExpCase) (reproduced bool) {
 					sentAndStored += n
 				case "open", "permanent":
 					failedAndStored += n
+					if ch.State == "permanent" {
+						permanentAndStored += n
+					}
 				}
 			}
 		}
@@ -1159,7 +1170,7 @@ func runExp(c *driver.Ctx, ec ExpCase) (reproduced bool) {
 	lhs, rhs := sent+failed+enq, given-stored
 	wit := func() map[string]any {
 		return map[string]any{"case": ec, "ledger": map[string]int64{"given": given, "refused_at_enqueue": refusedItems, "still_stored_by_drain": stored, "still_stored_in_image": storedImage, "items_of_shutdown_interrupted_requests": interrupted,
-			"consumex_returned_export_error": exportErrItems, "context_ended_in_wait_for_space": ctxRefusedItems, "context_ended_in_wait_for_result": abandonedItems, "booked_sent_and_still_stored": sentAndStored, "booked_failed_and_still_stored": failedAndStored},
+			"consumex_returned_export_error": exportErrItems, "context_ended_in_wait_for_space": ctxRefusedItems, "context_ended_in_wait_for_result": abandonedItems, "booked_sent_and_still_stored": sentAndStored, "booked_failed_and_still_stored": failedAndStored, "of_these_permanent_failures": permanentAndStored},
 			"reader": map[string]int64{"sent": sent, "send_failed": failed, "enqueue_failed": enq}, "attempts": len(atts), "counters": snap.NonZero("otelcol_exporter_")}
 	}
 	c.Observe("exporter_identities_checked", 1)
@@ -1174,7 +1185,9 @@ func runExp(c *driver.Ctx, ec ExpCase) (reproduced bool) {
 			diff = "wait-for-result-export-errors-also-counted-enqueue-failed"
 		case cfg.Persistent && sentAndStored == 0 && failedAndStored > 0 && lhs-rhs == failedAndStored:
 			diff = "attempted-items-counted-failed-and-still-stored"
-		case cfg.Persistent && cfg.Batched() && sentAndStored > 0 && lhs-rhs >= sentAndStored && lhs-rhs <= attemptedAndStored:
+		case cfg.Persistent && cfg.Batched() && lhs-rhs <= attemptedAndStored &&
+			((sentAndStored+permanentAndStored > 0 && lhs-rhs >= sentAndStored+permanentAndStored) || (cfg.RetryElapsedMS > 0 && failedAndStored > permanentAndStored && lhs > rhs)):
+			// (the finished part may also have ended with a final failure - permanent, or retries given up - instead of a success)
 			// a request split over several batches: one part was exported, another part was interrupted by the
 			// shutdown, the request stays stored as a whole
 			diff = "part-of-split-request-exported-and-whole-request-still-stored"
@@ -1324,6 +1337,14 @@ func run(c *driver.Ctx) {
 			ec := ExpCase{Script: "ok-then-transient", Scenario: ScRetryWait, Producers: 1, Reqs: 1, Sizes: []int{5}, Directed: "c19d"}
 			ec.Cfg = expkit.ExpConfig{Sig: expkit.Logs, Signal: "logs", Persistent: true, Batch: expkit.BatchLegacy, Sizer: "requests", QueueSize: 1000, Consumers: 1, NoTimeout: true,
 				MinSize: 3, MaxSize: 3, FlushMS: 1, Retry: true, RetryInitMS: 3_600_000, RetryMaxMS: 3_600_000}
+			runExp(c, ec)
+			c.Observe("directed_cases", 1)
+		}
+		if c.Want(4) {
+			// C19-e: wait_for_result, exports held; the first producer's context is cancelled while it waits for the
+			// result of its accepted request; then the exports are released
+			ec := ExpCase{Script: "ok", Scenario: ScBlocked, Producers: 2, Reqs: 1, Sizes: []int{3}, CtxPlan: []string{ctxCancel, ctxLive}, Directed: "c19e"}
+			ec.Cfg = expkit.ExpConfig{Sig: expkit.Logs, Signal: "logs", Batch: expkit.BatchNone, Sizer: "requests", QueueSize: 4, Consumers: 1, NoTimeout: true, WaitForResult: true, BlockOnOverflow: true}
 			runExp(c, ec)
 			c.Observe("directed_cases", 1)
 		}
